@@ -6,6 +6,7 @@
 -/
 import PolyVerif.Props.C20
 import PolyVerif.Props.C02
+import PolyVerif.Model.ConstrainedBW
 
 namespace PolyVerif.C02
 open PolyVerif.Mesh PolyVerif.Mesh.MeshVal PolyVerif.Delaunay
@@ -37,5 +38,72 @@ theorem bowyerWatson_entry_wf {K : Type} [Field K] [LinearOrder K] [IsStrictOrde
   · cases hb
 
 example : ∃ tris, bowyerWatson id [((0 : ℚ), (0 : ℚ)), (4, 0), (0, 3), (5, 5)] = some tris := ⟨_, rfl⟩
+
+/-! ### ConstrainedBowyerWatson: what WF needs, from the structure of its clipping / final assembly step -/
+
+open PolyVerif.CBW in
+theorem cbw_run_inv (n : Nat) : ∀ (clips : List Clip) (s : State), n ≤ s.pts →
+    (∀ t ∈ s.added, t.1 < s.pts ∧ t.2.1 < s.pts ∧ t.2.2 < s.pts) → (∀ c ∈ clips, ∀ i ∈ c.corners, i < n) →
+    (clips.foldl applyClip s).pts = s.pts + 2 * clips.length ∧
+    ∀ t ∈ (clips.foldl applyClip s).added,
+      t.1 < s.pts + 2 * clips.length ∧ t.2.1 < s.pts + 2 * clips.length ∧ t.2.2 < s.pts + 2 * clips.length
+  | [], s, _, ha, _ => by simpa using ha
+  | c :: cs, s, hn, ha, hc => by
+    have hcs : ∀ c' ∈ cs, ∀ i ∈ c'.corners, i < n := fun c' h' => hc c' (by simp [h'])
+    have hcc := hc c (by simp)
+    have hstep : n ≤ (applyClip s c).pts ∧ (applyClip s c).pts = s.pts + 2 ∧
+        ∀ t ∈ (applyClip s c).added, t.1 < s.pts + 2 ∧ t.2.1 < s.pts + 2 ∧ t.2.2 < s.pts + 2 := by
+      cases c with
+      | one pc ccw =>
+        have hpc : pc < n := hcc pc (by simp [Clip.corners])
+        refine ⟨by simp [applyClip]; omega, rfl, ?_⟩
+        intro t ht
+        simp only [applyClip, List.mem_cons] at ht
+        rcases ht with rfl | ht
+        · cases ccw <;> simp <;> omega
+        · have := ha t ht; omega
+      | two a b =>
+        have h1 : a < n := hcc a (by simp [Clip.corners])
+        have h2 : b < n := hcc b (by simp [Clip.corners])
+        refine ⟨by simp [applyClip]; omega, rfl, ?_⟩
+        intro t ht
+        simp only [applyClip, List.mem_cons] at ht
+        rcases ht with rfl | rfl | ht
+        · simp; omega
+        · simp; omega
+        · have := ha t ht; omega
+    obtain ⟨h1, h2, h3⟩ := hstep
+    have ih := cbw_run_inv n cs (applyClip s c) h1 (by rw [h2]; exact h3) hcs
+    simp only [List.foldl_cons, List.length_cons]
+    rw [h2] at ih
+    refine ⟨by rw [ih.1]; omega, ?_⟩
+    intro t ht
+    have := ih.2 t ht
+    omega
+
+/-- **ConstrainedBowyerWatson is well-formed**: `kept` are the triangles that survive from `bowyerWatson(points)` (indices
+    `< n`, C20), `clips` the clipping events in the order they happen (corner indices `< n`: they are corners of
+    triangulation triangles); the mesh has one vertex per point of the final list (`n + 2·|clips|`) and any selection, in any
+    order, of kept and added triangles (both are Go maps) as its index buffer. -/
+theorem constrainedBowyerWatson_wf (n : Nat) (kept : List CBW.Tri) (clips : List CBW.Clip)
+    (hk : ∀ t ∈ kept, t.1 < n ∧ t.2.1 < n ∧ t.2.2 < n) (hc : ∀ c ∈ clips, ∀ i ∈ c.corners, i < n)
+    (tris : List CBW.Tri) (ht : ∀ t ∈ tris, t ∈ kept ∨ t ∈ (CBW.run n clips).added)
+    {m : MeshVal α} (h : IsPrim m (n + 2 * clips.length) (untriples tris)) : WF m := by
+  have hinv := cbw_run_inv n clips ⟨n, []⟩ (Nat.le_refl _) (by simp) hc
+  apply prim_wf h
+  · intro i hi
+    obtain ⟨t, htm, hx⟩ := mem_untriples hi
+    have hb : t.1 < n + 2 * clips.length ∧ t.2.1 < n + 2 * clips.length ∧ t.2.2 < n + 2 * clips.length := by
+      rcases ht t htm with h1 | h1
+      · have := hk t h1; omega
+      · exact hinv.2 t h1
+    rcases hx with rfl | rfl | rfl
+    · exact hb.1
+    · exact hb.2.1
+    · exact hb.2.2
+  · rw [length_untriples]; omega
+
+example : (CBW.run 5 [.one 2 true, .two 0 4]).pts = 9 ∧
+    (CBW.run 5 [.one 2 true, .two 0 4]).added = [(0, 7, 4), (7, 8, 4), (2, 5, 6)] := by decide
 
 end PolyVerif.C02
